@@ -1,7 +1,7 @@
 (* C15 — Every check terminates, honours cancellation and releases its goroutines.
    PARTIAL: goroutine release and promptness are runtime facts; they are decided on the real engine by the TERM suite. *)
 From Coq Require Import List Bool NArith ZArith.
-From Keto Require Import Base.Bytes Store.Sql Engine.Ast Engine.Engine Engine.Top Engine.Expand Engine.ExpandProofs.
+From Keto Require Import Base.Bytes Store.Sql Engine.Ast Engine.Engine Engine.Top Engine.Termination Engine.Expand Engine.ExpandProofs.
 Import ListNotations.
 
 (* a storage failure at ANY position is answered: the model has no "no result sent" outcome after fixes D5/D3;
@@ -14,3 +14,21 @@ Proof. exact check_err_not_member. Qed.
 Theorem C15_expand_terminates : forall nid d global, (1 <= global)%Z -> forall s depth,
   BuildTree nid d global (S (Z.to_nat global)) s depth <> None.
 Proof. intros nid d global Hg. exact (BuildTree_total nid d global Hg). Qed.
+
+(* TERMINATION of a check: for every configuration (recursive permissions, &&, !, traversals), every store (cycles
+   included), width, fault plan and request, the fuelled engine model does not run out of gas once the gas is
+   1 + depth * (2 * height of the deepest rewrite + 3): every re-entry of checkIsAllowed has consumed one unit of
+   depth and in between the engine only descends one finite syntax tree.  (The D6 witness p = x && this.permits.p
+   made this statement false before the fix: the computed subject set re-entered with the SAME depth.) *)
+Theorem C15_check_terminates : forall cfg strict nid d maxWidth F sub ns obj rel request global gas,
+  need cfg (Z.to_nat (eff_depth request global)) <= gas ->
+  CheckRelationTuple gas cfg strict nid d maxWidth F ns obj rel sub request global <> None.
+Proof. exact check_terminates. Qed.
+(* non-vacuity: the D6 configuration, answered within the bound *)
+Example C15_d6_answered :
+  let x := [Byte.x78] in let p := [Byte.x70] in let doc := [Byte.x44] in
+  let cfg := [{| ns_name := doc; ns_rels := [ {| rel_name := x; rel_types := []; rel_rewrite := None |};
+               {| rel_name := p; rel_types := []; rel_rewrite := Some {| rw_op := OpAnd; rw_children := [CComputed x; CComputed p] |} |} ] |}] in
+  need cfg 5 = 26 /\
+  exists o, CheckRelationTuple (need cfg 5) cfg false 1%N empty_db 100 (fun _ => false) doc (1%N, [Byte.x6f]) p (ISid (1%N, [Byte.x75])) 0 5 = Some o.
+Proof. vm_compute. split; [reflexivity|eexists; reflexivity]. Qed.
